@@ -17,8 +17,9 @@ import (
 
 func Setup() {}
 
-var tags = []string{"div", "span", "x:b", "br"}
-var keys = []string{"a", "xmlns", "xmlns:x", "x:a"}
+// names with no, one and two colons: the prefix ends at the FIRST colon
+var tags = []string{"div", "span", "x:b", "br", "x:y:z"}
+var keys = []string{"a", "xmlns", "xmlns:x", "x:a", "a:b:c"}
 
 func symText() string {
 	b := nd.Byte()
